@@ -32,6 +32,7 @@ OBLIGATIONS = [
     "SkVerif.C01.n_splits_eq_length",
     "SkVerif.C01.single_window_is_last_feasible",
     "SkVerif.C01.single_window_fold",
+    "SkVerif.C01.single_window_rejects_too_long",
     "SkVerif.C01.cutoff_splitter_uses_given_cutoffs",
     "SkVerif.C01.cutoff_splitter_positions_in_range",
     "SkVerif.C01.cutoff_splitter_rejects_past_end",
